@@ -3126,10 +3126,33 @@ scan_raw(int c) {
  */
 bool CPPPreprocessor::
 should_ignore_manifest(const CPPManifest *manifest) const {
+  if (_runaway_manifests.count(manifest) != 0) {
+    return true;
+  }
+
+  // A function-like macro may be expanded again while its own expansion is
+  // being rescanned (that is how F(F(1)) is handled), but only to a bounded
+  // depth: "#define f(x) f(x)" would otherwise recurse until the stack
+  // overflows, and "#define f(x) #f(x)" doubles its text on every level.
+  // Once a macro has hit one of these bounds, it is left alone for good, so
+  // that "#define f(x) f(x) f(x)" does not take forever either.
+  static const int max_self_expansion_depth = 200;
+  static const size_t max_self_expansion_size = 1 << 20;
+  int depth = 0;
+
   InputFile *infile = _infile;
   while (infile != nullptr) {
-    if (infile->_ignore_manifest && infile->_manifest == manifest) {
-      return true;
+    if (infile->_manifest == manifest) {
+      if (infile->_ignore_manifest) {
+        return true;
+      }
+      if (++depth >= max_self_expansion_depth ||
+          infile->_input.size() > max_self_expansion_size) {
+        _runaway_manifests.insert(manifest);
+        warning("macro " + manifest->_name + " keeps expanding to itself; "
+                "not expanding it any further");
+        return true;
+      }
     }
     infile = infile->_parent;
   }
